@@ -29,6 +29,10 @@ KINDS = {
     'PY+LJ':      (['PY', False], ['LJ', {'epsilon': 0.2, 'rcut': 2.5, 'shift': True}]),
     'HNC+WCA':    (['HNC', False], ['WCA', {'epsilon': 0.5}]),
     'MShc+HS':    (['MS', True], ['HS', {}]),
+    # potentials with an explicitly given sigma that differs from the diameter mean: the potential uses its own sigma,
+    # a closure with the hard-core flag excludes the diameter mean (two different distances in one pair)
+    'HNChc+LJx':  (['HNC', True], ['LJ', {'epsilon': 0.2, 'rcut': 2.5, 'shift': True, 'sigma': 0.8}]),
+    'PYhc+HSx':   (['PY', True], ['HS', {'sigma': 0.7}]),
 }
 KIND_NAMES = list(KINDS)
 
